@@ -136,7 +136,7 @@ def sig_hash(parts):
 # isolated execution
 # --------------------------------------------------------------------------
 
-RUN_WALL_LIMIT = float(os.environ.get("TVSIM_RUN_WALL", "60"))
+RUN_WALL_LIMIT = float(os.environ.get("TVSIM_RUN_WALL", "120"))
 
 
 def _child_main(wfd, runfn, prop, tape, keep_events):
@@ -366,7 +366,7 @@ def run_batch(runfn, prop, seed, nruns, workers, wall_cap=None, progress=False):
     return ordered, cut
 
 
-def run_fresh(prop, tape_values, seed, keep_events=False, timeout=600):
+def run_fresh(prop, tape_values, seed, keep_events=False, timeout=1500):
     """Execute a tape in-process in a *fresh interpreter* (./check PROP --run-tape FILE).  This is the reference
     notion of "a pristine process": confirmation of batch candidates, the final verification of a minimised tape
     and --replay all go through this one path, so a replay reproduces exactly what was confirmed - also for
@@ -379,8 +379,11 @@ def run_fresh(prop, tape_values, seed, keep_events=False, timeout=600):
         with os.fdopen(fd, "w") as f:
             json.dump({"tape": list(tape_values), "keep_events": bool(keep_events)}, f)
         env = dict(os.environ, VERIF_SEED=str(seed), TVSIM_NO_REEXEC="1")
-        p = subprocess.run([os.path.join(VERIF_DIR, "check"), prop, "--run-tape", path], env=env,
-                           capture_output=True, text=True, timeout=timeout)
+        try:
+            p = subprocess.run([os.path.join(VERIF_DIR, "check"), prop, "--run-tape", path], env=env,
+                               capture_output=True, text=True, timeout=timeout)
+        except subprocess.TimeoutExpired:
+            return {"status": "timeout", "err": f"fresh interpreter did not finish within {timeout} s", "violations": []}
         try:
             return json.loads(p.stdout.strip().splitlines()[-1])
         except Exception:
